@@ -41,6 +41,14 @@ def menu(tier):
         for strat in S.STRATEGIES:
             scn.append(S.mk(f'commented/{strat}/{"".join(fmt)}', 'commented',
                             ('has', ['or']), strat, 2, fmt, budget=0))
+    # bare atoms, literals and comments at top level that have to survive
+    atoms = ('; top\n(declare-const a Bool)\npush pop\n"lit" |q s|\n'
+             '(assert (or a a))\nexit\n')
+    for fmt in S.FORMATS:
+        for strat in S.STRATEGIES:
+            scn.append(S.mk(f'atoms/{strat}/{"".join(fmt)}', atoms,
+                            ('has', ['or', 'push', 'pop', '"lit"', '|q s|',
+                                     'exit']), strat, 2, fmt, budget=0))
     # (3) schedules: budget 1 on a covering subset, 2 on micro scenarios
     b1 = 2 if tier == 'thorough' else 1
     for inp, mname, ms in (('bool5', 'and+b', 'default'),
